@@ -28,8 +28,8 @@ ALIASES = {'AbortFailed': 'Abort', 'AbortVoted': 'Abort', 'CheckCurrentQ': 'Chec
            'NewOidQ': 'NewOid', 'PackQ': 'Pack', 'PushQ': 'Push', 'PopQ': 'Pop'}
 # concrete storage kind -> kind of the model ('temp': the demo storage creates its own changes, a MappingStorage)
 KINDS = {'file': 'file', 'mapping': 'mapping', 'fileblob': 'file', 'temp': 'mapping'}
-AS_CODE = dict(TidFromChangesOnly=True, UndoUncreates=True, OidProbeByLoad=True, PackFlagMissing=True)
-REPAIRED = dict(TidFromChangesOnly=False, UndoUncreates=False, OidProbeByLoad=False, PackFlagMissing=False)
+AS_CODE = dict(TidFromChangesOnly=True, UndoUncreates=True, OidProbeByLoad=True, PackAsCode=True)
+REPAIRED = dict(TidFromChangesOnly=False, UndoUncreates=False, OidProbeByLoad=False, PackAsCode=False)
 
 
 class ReplayError(Exception):
@@ -455,7 +455,7 @@ def tla_consts(c):
          'Client': '{' + ', '.join(c['Client']) + '}', 'Cls': '<- ' + c['Cls']}
     for n in ('MaxBase', 'MaxTxn', 'MaxRecs', 'MaxClock', 'K', 'MaxUndo', 'MaxLayers', 'MaxNewOid', 'MaxPack'):
         k[n] = c[n]
-    for n in ('PrintObs', 'TidFromChangesOnly', 'UndoUncreates', 'OidProbeByLoad', 'PackFlagMissing'):
+    for n in ('PrintObs', 'TidFromChangesOnly', 'UndoUncreates', 'OidProbeByLoad', 'PackAsCode'):
         k[n] = b(c[n])
     k['Temporary'] = b(c['ChangesKind'] == 'temp')
     return k
